@@ -238,7 +238,10 @@ def run_case(kind, idx, rng, sh):
         pcs = L['utils'].parse_cstring_from_stream
         CS = L['con'].CString('')
         step = 8 if sh.tier == 'quick' else 32
-        for n in range(idx, 301, step):
+        # lengths 0..300, and lengths on both sides of the powers of two up to 2**17 (a linker map or a mangled C++ name
+        # can be that long; the reader has no business bounding it)
+        big = [[1023, 1024, 1025], [4095, 4096, 4097], [16383, 16384, 16385], [65535, 65536, 65537], [65599, 65600, 131072], [100000]]
+        for n in list(range(idx, 301, step)) + big[idx % len(big)]:
             body = bytes(rng.randrange(1, 256) for _ in range(n))
             for term in (True, False):
                 for off in (0, 1, 63, 64):
